@@ -721,3 +721,15 @@ def _witness(sig):
 
 
 WITNESSES = {sig: _witness(sig) for sig in WITNESS_INPUTS}
+
+
+def generate(ctx):
+    """translator tie: the closed-form moments are re-read from /repo's AST on every run (symbolic value of each
+    straight-line method body), translated to Lean terms over ℝ and proved equal to the model's (harness/anchors.py)"""
+    from .. import anchors
+    from ..shim import REPO
+    r = anchors.build(REPO, "C19", ["DPL.Model.Moments", "DPL.Model.Calibration"], anchors.c19_specs(), opens="DPL.Cont")
+    ctx.count("formula_anchors", r["obligations"])
+    if r["errors"]:
+        r["error"] = "; ".join(r["errors"])
+    return r
